@@ -1,6 +1,6 @@
 (* C09 — property theorems.  Only statements, [exact lemma] and Print Assumptions. *)
 From Coq Require Import ZArith List.
-From FV Require Import Lib.RustInt C09.Model C09.Proofs C09.Proofs2 C09.Proofs3 C09.Proofs4.
+From FV Require Import Lib.RustInt C09.Model C09.Proofs C09.Proofs2 C09.Proofs3 C09.Proofs4 C09.Proofs5.
 Import ListNotations.
 Open Scope Z_scope.
 
@@ -130,6 +130,25 @@ Theorem c09_midpoint_exact : forall a b,
   /\ cy_ (cmid (2 * cx_ a, 2 * cy_ a, snd a) (2 * cx_ b, 2 * cy_ b, snd b)) = cy_ a + cy_ b.
 Proof. exact cmid_exact. Qed.
 
+(* write-fonts BezPath front end (integer coordinates): a point is dropped as implied exactly when it is
+   on-curve, both cyclic neighbours are off-curve and p0 + p2 = 2 p1 on both axes — never for an odd sum *)
+Theorem c09_implicit_iff : forall p0 p1 p2 : cpt, implicit p0 p1 p2 = true <->
+  snd p1 = true /\ snd p0 = false /\ snd p2 = false
+  /\ cx_ p0 + cx_ p2 = 2 * cx_ p1 /\ cy_ p0 + cy_ p2 = 2 * cy_ p1.
+Proof. exact implicit_iff. Qed.
+(* elision_lossless: for every contour whose first point is on-curve (every contour the front end builds
+   starts with its move-to point), the contour left after dropping ALL implied points (cyclic neighbours,
+   the first point included) draws in skrifa's default FreeType style the very same command sequence as the
+   original point list: reconstruction of the implied points returns the original, exactly *)
+Theorem c09_elision_lossless : forall (f : cpt) (r : list cpt), snd f = true ->
+  contour_to_path false (elide (f :: r)) = contour_to_path false (f :: r).
+Proof. exact elision_lossless. Qed.
+(* HarfBuzz style: the same whenever the first point itself is kept (otherwise the start point rotates) *)
+Theorem c09_elision_lossless_harfbuzz : forall (f : cpt) (r : list cpt), snd f = true ->
+  implicit (last (f :: r) f) f (hd f r) = false ->
+  contour_to_path true (elide (f :: r)) = contour_to_path true (f :: r).
+Proof. exact elision_lossless_hb. Qed.
+
 Print Assumptions c09_flags_rle_roundtrip.
 Print Assumptions c09_deltas_accepted.
 Print Assumptions c09_coords_roundtrip.
@@ -147,3 +166,6 @@ Print Assumptions c09_simple_accepted.
 Print Assumptions c09_to_path_wellformed.
 Print Assumptions c09_elide_then_reinsert.
 Print Assumptions c09_midpoint_exact.
+Print Assumptions c09_implicit_iff.
+Print Assumptions c09_elision_lossless.
+Print Assumptions c09_elision_lossless_harfbuzz.
